@@ -1131,6 +1131,17 @@ def _space_cases(ctx, C, rng, cs, make_hpr, spaces):
             last = rng.choice([None, "seed"])
             spaces.append(dict(space=sp, active={}, prefix_keys=rng.choice([None, ["seed"]]), name_last_pos=last,
                                fix_last=False, seed=rng.randrange(2 ** 31)))
+        # fixed last position (value_for_last_pos) with every kind of last attribute, in particular a
+        # one-hot block (choice with >= 3 categories, like the task attribute of transfer searchers)
+        for lk in ["choice", "choice", "ordinal_equal", "ordinal_nn", "finrange", "logfinrange", "randint", "lograndint",
+                   "uniform", "loguniform"][:ctx.n(10, 10)]:
+            ls = gen_spec(rng, lk)
+            if lk == "choice":
+                ls = dict(kind="choice", categories=gen_categories(rng, n=rng.choice([3, 3, 4, 6])))
+            sp = {"task": ls, "lr": gen_spec(rng, rng.choice(["loguniform", "uniform"])),
+                  "act": gen_spec(rng, rng.choice(["choice", "randint", "ordinal_equal"]))}
+            spaces.append(dict(space=sp, active={}, prefix_keys=rng.choice([None, None, ["lr"]]), name_last_pos="task",
+                               fix_last=True, seed=rng.randrange(2 ** 31)))
     for S in spaces:
         okb, built = call(lambda: {k: build(v) for k, v in S["space"].items()})
         if not okb:
@@ -1230,10 +1241,14 @@ def _space_cases(ctx, C, rng, cs, make_hpr, spaces):
         n = hpr.ndarray_size
         vecs = [[0.0] * n, [1.0] * n, [float(rng.choice([0, 1])) for _ in range(n)], [rng.random() for _ in range(n)],
                 [rng.random() for _ in range(n)]]
-        if okx:
-            vecs.append([a + (b - a) * rng.random() for a, b in bounds])
         if any(abs(s_.get("upper", 0)) >= 2 ** 24 for s_ in specs):
             vecs += [[float(np.nextafter(0.0, 1.0))] * n, [float(np.nextafter(1.0, 0.0))] * n]
+        n_free = len(vecs)
+        if okx:
+            # inside get_ndarray_bounds(): both corners and random points
+            vecs += [[a for a, b in bounds], [b for a, b in bounds]]
+            vecs += [[a + (b - a) * rng.random() for a, b in bounds] for _ in range(2)]
+            vecs.append([rng.choice([a, b]) for a, b in bounds])
         for vi, v in enumerate(vecs):
             okd, cfg = call(lambda: hpr.from_ndarray(np.array(v)))
             pool = Pool()
@@ -1252,3 +1267,14 @@ def _space_cases(ctx, C, rng, cs, make_hpr, spaces):
                     ctx.violation("property", "space from_ndarray: %s=%r not a member of %r" % (k, cfg[k], built[k]), case=case,
                                   signature=dict(op="from_ndarray", defect="decoded_not_member", space=True,
                                                  constructor=S["space"][k]["kind"]))
+            if vi >= n_free and value_last is not None:
+                # a vector inside get_ndarray_bounds() decodes to the fixed value of the last attribute
+                lk_ = S["name_last_pos"]
+                lkind = S["space"][lk_]["kind"]
+                got = cfg[lk_]
+                if not same_value(got, value_last, lkind in ("uniform", "loguniform", "reverseloguniform")):
+                    ctx.h("fixed_last_kind", lkind)
+                    ctx.violation("property", "from_ndarray(%r) (inside get_ndarray_bounds %r, value_for_last_pos=%r of %r) gives %s=%r" % (
+                        v, bounds, value_last, built[lk_], lk_, got), case=case,
+                        signature=dict(op="from_ndarray", defect="fixed_last_value_not_decoded", space=True,
+                                       constructor=lkind, encoded_size=int(hpr.encoded_ranges[lk_][1] - hpr.encoded_ranges[lk_][0])))
